@@ -27,7 +27,7 @@ FLOORS["thorough"].update({'interrupts_issued_from_plain_callbacks': 9000, 'inte
 PROFILE = {"weights": {"timeout": 5, "zero": 1, "wait": 3, "succeed": 2, "fail": 0.5, "spawn": 1.5, "join": 2,
                        "interrupt": 6, "cb": 0.3, "cond": 1.5, "cbint": 1.2, "chain": 0.2},
            "min_top": 2, "max_top": 6, "max_child_scripts": 2, "min_ev": 1, "max_ev": 3, "p_exact": 0.85,
-           "p_raise": 0.05, "p_catch": 0.8, "int_policy": [3, 4, 3, 1, 1]}
+           "p_raise": 0.05, "p_catch": 0.8, "int_policy": [3, 4, 3, 1, 1], "p_rational": 0.02}
 KEYS = ("int_issued", "int_delivered", "int_refused", "int_discarded", "int_at_target_due",
         "int_multi_same_instant", "source_checks", "agenda_pops", "waiter_invocations", "mixed_class_instants")
 
@@ -63,10 +63,93 @@ def one_case(ctx, prog):
     return viol, nt
 
 
+def realtime_case(ctx, prog):
+    """the same program on a RealtimeEnvironment (the kernel's other Environment class) under a virtual wall clock
+    whose sleeps are exact: interrupts are delivered by the same rules, the tape equals the spec kernel's"""
+    import onl.sim.rt as rt
+    K = kern.RealK.load()
+    wall = [0.0]
+
+    def sleep(d):
+        wall[0] += d
+    old = (rt.monotonic, rt.sleep)
+    rt.monotonic, rt.sleep = (lambda: wall[0]), sleep
+    try:
+        mon = kern.Monitor(agenda=True, waiters=True, interrupts=True)
+        r = kern.run_on(K, prog, mon=mon, envclass=rt.RealtimeEnvironment)
+        viol = list(mon.finish())
+    finally:
+        rt.monotonic, rt.sleep = old
+    sr = kern.run_on(speckernel.K, prog)
+    viol += kern.spec_violation(r, sr)
+    ctx.count("programs_on_realtime_environment")
+    return [(m + "[RealtimeEnvironment]", w, x) for m, w, x in viol]
+
+
+def with_block_probe(ctx):
+    """a process that waits *inside a with-block* of a resource / store request and is interrupted while still queued
+    receives the Interrupt at that yield like anywhere else (the context manager must not swallow it)"""
+    K = kern.RealK.load()
+    from onl.sim import Resource, PriorityResource, PreemptiveResource, Store, Container
+    for name, mk, req in (("Resource", lambda e: Resource(e, 1), lambda r: r.request()),
+                          ("PriorityResource", lambda e: PriorityResource(e, 1), lambda r: r.request(priority=1)),
+                          ("PreemptiveResource", lambda e: PreemptiveResource(e, 1), lambda r: r.request(priority=1, preempt=False)),
+                          ("Store.get", lambda e: Store(e), lambda r: r.get()),
+                          ("Store.put", lambda e: Store(e, capacity=1), lambda r: r.put("x")),
+                          ("Container.get", lambda e: Container(e, 10, 0), lambda r: r.get(3)),
+                          ("Container.put", lambda e: Container(e, 10, 10), lambda r: r.put(3))):
+        for when in (1, 0):
+            ctx.count("with_block_interrupt_probes")
+            env = K.Environment()
+            res = mk(env)
+            log = []
+
+            def holder(env):
+                if name.endswith("Resource"):
+                    with req(res) as q:
+                        yield q
+                        yield env.timeout(50)
+                elif name == "Store.put":
+                    yield res.put("first")
+                    yield env.timeout(50)
+                else:
+                    yield env.timeout(50)
+
+            def victim(env):
+                yield env.timeout(when)
+                try:
+                    with req(res) as q:
+                        yield q
+                        log.append("granted")
+                except K.Interrupt as it:
+                    log.append(("interrupt", it.cause, env.now))
+                log.append("after")
+
+            def poker(env, v):
+                yield env.timeout(2)
+                v.interrupt("poke")
+            env.process(holder(env))
+            v = env.process(victim(env))
+            env.process(poker(env, v))
+            case = {"probe": "with_block_interrupt", "what": name, "queued_since": when}
+            try:
+                env.run(until=10)
+            except BaseException as e:
+                ctx.violation(f"exception:{type(e).__name__}@with-block-interrupt[{name}]", "the run raised", repr(e)[:200], case)
+                continue
+            if log != [("interrupt", "poke", 2), "after"]:
+                ctx.violation(f"interrupt-not-received-inside-with-block[{name}]",
+                              "a process interrupted while queued inside `with <request>:` did not receive Interrupt(cause) at its yield", {"log": repr(log)}, case)
+
+
 def run_shard(ctx):
+    if ctx.shard == 0:
+        with_block_probe(ctx)
     for i in ctx.cases(ncases(ctx.tier)):
         case = {"program": kern.gen_program(ctx.rng(i), PROFILE)}
         viol, nt = one_case(ctx, case["program"])
+        if i % 10 == 7:
+            viol += realtime_case(ctx, case["program"])
         if i % 4 == 0:
             bv, n = kern.bare_spec_violation(case["program"])
             viol += bv
